@@ -130,6 +130,7 @@ func runC16(c *Ctx) {
 		"(R3) Add/Done bracket the handler on every path, every path of Close reaches WaitGroup.Wait (repeated / concurrent calls also wait), the closer goroutine closes the listener after the closer channel fires, Serve returns nil on net.ErrClosed before its generic error return; (R4) no blocking operation (Wait, channel operation, connection I/O, callback) is performed while Server.mu is held (no deadlock through the lock). " +
 		"Not decided: liveness of user handlers (Close waits for them by design); behaviour when Close is called on a Server not built by NewServer."
 	R.Assumptions = []string{"sync.RWMutex, sync.WaitGroup, atomic.Bool semantics", "closing a closed channel panics; receiving from a closed channel never blocks"}
+	R.Explanation += " (R3) also: Serve itself waits for nothing that its connection goroutines signal at their end (a WaitGroup or channel tied to client lifetimes)."
 	R.Trusted = []string{"go/types + go/ssa"}
 
 	closeFn := c.mustMethod("C16.R1", "wire", "Server", "Close")
@@ -360,6 +361,97 @@ func runC16(c *Ctx) {
 		}
 	}
 	R.Check(closerOK, "C16.R3", "Serve:closer-goroutine", c.atFn(serveFn), "a goroutine of Serve closes the listener once the closer channel fires (so Accept fails and Serve returns)", "receive from Server.closer precedes listener.Close in a Serve closure", "no Serve closure receives from Server.closer and then closes the listener")
+	// Serve's return does not wait for client connections: nothing a connection goroutine signals at its end
+	// (WaitGroup.Done, channel close / send) is waited for by Serve itself
+	serveConn := c.P.Method("wire", "Server", "serve")
+	syncObj := func(fn *ssa.Function, v ssa.Value) ssa.Value {
+		// the synchronisation object behind v: a local of Serve (possibly captured) or a struct field
+		for {
+			switch x := v.(type) {
+			case *ssa.FreeVar:
+				for i, fv := range fn.FreeVars {
+					if fv == x && fn.Parent() != nil {
+						for _, b := range fn.Parent().Blocks {
+							for _, in := range b.Instrs {
+								if mc, ok := in.(*ssa.MakeClosure); ok && mc.Fn == ssa.Value(fn) && i < len(mc.Bindings) {
+									return mc.Bindings[i]
+								}
+							}
+						}
+					}
+				}
+				return v
+			case *ssa.UnOp:
+				if x.Op == token.MUL {
+					v = x.X
+					continue
+				}
+				return v
+			default:
+				return v
+			}
+		}
+	}
+	sameObj := func(a, b ssa.Value) bool {
+		if a == b {
+			return true
+		}
+		fa, ok1 := core.FieldOfAddr(a)
+		fb, ok2 := core.FieldOfAddr(b)
+		return ok1 && ok2 && fa.Struct == fb.Struct && fa.Name == fb.Name
+	}
+	var signalled []ssa.Value
+	nConn := 0
+	for _, a := range serveFn.AnonFuncs {
+		if len(callsIn(a, calleeIs(serveConn))) == 0 {
+			continue
+		}
+		nConn++
+		for _, fn := range allNested(a) {
+			for _, ci := range core.Calls(fn) {
+				if f := core.StaticCallee(ci); f != nil && core.MethodIs(f, "sync", "WaitGroup", "Done") {
+					signalled = append(signalled, syncObj(fn, ci.Common().Args[0]))
+				}
+				if core.BuiltinName(ci.Common()) == "close" {
+					signalled = append(signalled, syncObj(fn, ci.Common().Args[0]))
+				}
+			}
+			for _, b := range fn.Blocks {
+				for _, in := range b.Instrs {
+					if snd, ok := in.(*ssa.Send); ok {
+						signalled = append(signalled, syncObj(fn, snd.Chan))
+					}
+				}
+			}
+		}
+	}
+	R.Floor("C16.R3", "connection goroutines started by Serve", nConn, 1)
+	waitsForConns := false
+	for _, b := range serveFn.Blocks {
+		for _, in := range b.Instrs {
+			var waited ssa.Value
+			if ci, ok := in.(ssa.CallInstruction); ok {
+				if f := core.StaticCallee(ci); f != nil && core.MethodIs(f, "sync", "WaitGroup", "Wait") {
+					waited = syncObj(serveFn, ci.Common().Args[0])
+				}
+			}
+			if u, ok := in.(*ssa.UnOp); ok && u.Op == token.ARROW {
+				waited = syncObj(serveFn, u.X)
+			}
+			if waited == nil {
+				continue
+			}
+			for _, sg := range signalled {
+				if sameObj(waited, sg) {
+					waitsForConns = true
+					R.Fail("C16.R3", "Serve:waits-for-connections", c.at(in), "Serve returns as soon as the listener is closed; it does not wait for client connections to end", "Serve waits ("+instrDescr(in)+") for something its connection goroutines signal only when their client disconnects: after Close, Serve stays blocked as long as any client remains connected")
+				}
+			}
+		}
+	}
+	if !waitsForConns {
+		R.OK("C16.R3", "Serve:does-not-wait-for-connections", c.atFn(serveFn), "Serve returns as soon as the listener is closed; it does not wait for client connections to end", sprintf("no wait in Serve on any of the %d objects signalled by its connection goroutines", len(signalled)))
+	}
 	var isCall *ssa.Call
 	for _, ci := range core.Calls(serveFn) {
 		if call, ok := ci.(*ssa.Call); ok && core.FuncIs(core.StaticCallee(call), "errors", "Is") {
